@@ -32,6 +32,7 @@ c.ensures += _clauses({
                   'and result.is_initiator == (be_at(data, 19, 1) // 8 % 2 == 1) '
                   'and result.message_id == be_at(data, 20, 4)',
     'C05:header-only': 'implies(header_only, len(result.payloads) == 0 and len(result.encrypted_payloads) == 0)',
+    'C05:min-length': 'len(data) >= 28',
     # the cleartext chain (first payload type = header octet 16) must end exactly at the end of the DATAGRAM
     'C05:chain-ends-at-datagram-end': 'implies(not header_only, '
                                       'chain_end(data[28:], be_at(data, 16, 1), 0) == len(data) - 28)',
